@@ -39,6 +39,11 @@ def check(tier, seed):
         known = src_corr.run_known_probes(rep, exe)
         n = 200 if tier == "quick" else 6000
         st = src_corr.stream(rep, exe, tier, seed, n, KNOBS, True, "c", small_heap=3000)
+        # capture shapes outside the generator's reach (function values created in for-in / comprehension / range loops that capture
+        # the loop variable after other variables, own name re-bound, three-level capture, rethrow through another closure):
+        # expectations computed by progs.py from the language rules
+        import vm_checks
+        shapes = vm_checks.expectation_stage(rep, tier, seed, "capture", want=lambda meta: meta.get("capture"))
     finally:
         shutil.rmtree(d, ignore_errors=True)
     rep.cov.update(
@@ -46,8 +51,8 @@ def check(tier, seed):
                       "S = Never.Src.eval / resolve / fv; tied to symtab.c, freevar.c, gencode.c, emit.c only by the differential run",
                       "generator + renamer src_gen.py, printers nevast.py", "harness h_run.c (GLOBAL_VEC sizes via the NEVER_VERIF step hook), gcc, ASan/UBSan"],
         evaluations=st["runs"], distinct_nontrivial=st["clos_nonzero"],
-        rule="closure/shadowing-heavy generated programs, each with two alpha-renamed twins (name_depth: un-shadowed; level: maximal re-use of names); I(p)=I(twin)=S(p); sizes of environment vectors = |fv| for every closure created",
-        samples=st["samples"], stream=st, known_defect_probes_hit=known, seed_corpus=seeds,
+        rule="closure/shadowing-heavy generated programs, each with three alpha-renamed twins (name_depth: un-shadowed; level: maximal re-use of names; collide: all bound names share one value of the compiler's identifier hash); I(p)=I(twin)=S(p); sizes of environment vectors = |fv| for every closure created",
+        samples=st["samples"], stream=st, capture_shapes=shapes, known_defect_probes_hit=known, seed_corpus=seeds,
         share_programs_with_nonconstant_condition=round(st["progs_with_nonconst_cond"] / max(1, st["programs"]), 3),
         rejected_by_real_compiler=st["rejected"])
     rep.assumptions = ["symtab.c hashing/lookup internals are not modelled", "liveness of captured cells across collections is C04's theorem; here closures are exercised with the default heap"]
